@@ -14,7 +14,15 @@ RULE = ("sp.prod cases: A x, A^T y, transpose(A) y, <y, A x>, <A^T y, x>, to_den
         "(5 random duplicate-free patterns per shape in quick, 12 in thorough; densities 1/2..1/5; forced empty first/last rows and columns; "
         "the empty pattern), built from triplets in random order or from raw arrays, rational entries and vectors drawn from "
         "{-7..7}/{1..4} (never the all-ones vector), (b) tie-only: mismatched vector lengths (guards), duplicate positions, malformed raw "
-        "arrays, f64 / Complex<f64> instances (bitwise); distinct = distinct executor line; non-trivial = at least two stored entries and r,c >= 2")
+        "arrays, f64 / Complex<f64> instances (bitwise); "
+        "round four, sp.hprod cases (the six observables A x, A^T y, transpose(A) y, <y, A x>, <A^T y, x>, to_dense on the matrix a history of insert / overwrite / scale / transpose steps leaves behind, "
+        "then scale(a) and all six again), every class of every dimension in every run, pairings rotate with the seed, one new case in four with a model term in the quick tier: "
+        "(c) structured-patterns: 25 named structures x shape classes 1x1, 1xn, nx1, wide, tall, square, 10x10 with value classes (all ones / all equal / opposite signs / stored zeros / 0,1,-1,2,1/2 / huge+tiny), "
+        "(d) vector-classes: ordered pairs of the classes of x and y (all zero, all ones, constant, unit vectors, alternating signs, first / last component zero, ramp, huge+tiny, ...), "
+        "(e) value-classes x scale factors 0, 1, -1, 2, 1/2, -3/2, 10^4, 10^-4, (f) history-op-pairs: ordered pairs of 14 operation classes before the products, (g) history-random: histories of 1..8 steps on shapes <= 10x10, "
+        "(h) structured-f64 / structured-cplx: the float instances with signed zeros, 2^+-200, +-i, axis-aligned and unit-modulus entries, judged against the exact products within a rounding-error bound "
+        "(the old f64 / Complex<f64> product cases are judged the same way now); "
+        "distinct = distinct executor line; non-trivial = at least two stored entries and r,c >= 2")
 TRUSTED = c06.TRUSTED
 ASSUMPTIONS = ["Rust semantics of Vec/usize as modelled (checked indexing, debug-profile overflow checks)",
                "the sampled cases are where model and code were compared; the theorems are about the model"]
@@ -30,10 +38,12 @@ MANIFEST = dict(
           "<y, A x> = <A^T y, x> (sp_adjoint), scaling scales the product (sp_scale_mul) and multiplying by the explicit transpose equals "
           "the transposed product (sp_transpose_mul); for duplicate-free storage the abstract entries are the entries of to_dense "
           "(to_dense_entry).  The model is run against the implementation (Rat vs Qc exact) on every shape up to "
-          "10 x 10 with random duplicate-free patterns, empty rows/columns, the empty matrix and vectors that are not all-ones; a dense "
-          "Fraction reference searches for a failing input."),
+          "10 x 10 with random duplicate-free patterns, empty rows/columns, the empty matrix and vectors that are not all-ones, and on structured families: named patterns on every shape class, "
+          "special value classes of entries, vectors (all zero, all ones, constant, unit vectors, ...) and scale factors (0, 1, -1, 2, 1/2), and the products of the matrix left behind by a history of "
+          "insert / overwrite / scale / transpose steps, before and after a further scale; a dense "
+          "Fraction reference searches for a failing input in the rational instance and, within a rounding-error bound, in the f64 and Complex<f64> instances."),
     note=("Which theorems are discharged is reported by the check (theorems k/k) and listed in coq/Props/C07.v; the f64 instance is tied "
-          "bitwise, not proved; mismatched lengths / malformed arrays are tied only."),
+          "bitwise and searched, not proved; mismatched lengths / malformed arrays are tied only."),
     technique="Coq proof over an abstract ring + model/implementation differential execution (vm_compute vs Rust executor) + dense reference search",
     design="7 (C07)")
 
@@ -120,15 +130,164 @@ def generate(rng, tier):
         b = ('T', r, c, c06.triplets_of(g, cells, elt))
         x = [c06.val(g, elt) for _ in range(c)]; y = [c06.val(g, elt) for _ in range(r)]
         cases.append(mk(elt, b, x, y, c06.val(g, elt), "product-" + elt))
+    cases += special_families(rng.fork("special-values"), thorough)
     # spread the expensive cases evenly over the Coq shards (the engine cuts the list into consecutive runs of 250)
     k = max(1, (len(cases) + 249) // 250)
     cases = [c for r in range(k) for c in cases[r::k]]
+    return cases
+
+# ---------------------------------------------------------------------------------------------------------------------
+# Round four: structured classes.  Every class of every dimension of the input space (findings/special-values-specA/
+# C07-table.md) is drawn in every run; the pairings rotate with the seed.  A case carries a model term (tie) when
+# `termed(k)` says so: in the quick tier one case in four (which quarter rotates with the seed), in the thorough tier one in two.
+# ---------------------------------------------------------------------------------------------------------------------
+SCALES = {'rat': [Fraction(0), Fraction(1), Fraction(-1), Fraction(2), Fraction(1, 2), Fraction(-3, 2), Fraction(10 ** 4), Fraction(1, 10 ** 4)],
+          'f64': [0.0, -0.0, 1.0, -1.0, 2.0, 0.5, -1.5, 0.1, 2.0 ** 200, 2.0 ** -200],
+          'cplx': [complex(0.0, 0.0), complex(1.0, 0.0), complex(-1.0, 0.0), complex(0.0, 1.0), complex(0.0, -1.0), complex(2.0, 0.0),
+                   complex(0.0, 0.5), complex(0.6, 0.8), complex(1.0, -1.0), complex(0.1, -1.0 / 3.0), complex(0.0, 2.0 ** 200)]}
+
+def rand_val(rng, elt):
+    return vval(rng) if elt == 'rat' else c06.val(rng, elt)
+
+def mk_h(elt, b, ops, x, y, a, family, with_term=True, nontrivial=None):
+    if nontrivial is None:
+        nontrivial = (len(b[3]) + len(ops) >= 2 and b[1] >= 2 and b[2] >= 2)
+    return Case(elt, hprod_line(elt, b, ops, x, y, a), hprod_term(elt, b, ops, x, y, a) if with_term else None,
+                meta={"kind": "hprod", "build": build_to_json(b), "ops": ops_to_json(ops), "x": [str(t) for t in x],
+                      "y": [str(t) for t in y], "a": str(a)},
+                family=family, nontrivial=nontrivial, check_class=True, tol=1e-12)
+
+def mk_p(elt, b, x, y, a, family, with_term=True):
+    c = mk(elt, b, x, y, a, family)
+    if not with_term: c.term = None
+    return c
+
+def structured_matrix(g, elt, r, c, pat, fill, form):
+    cells = pattern(pat, r, c)
+    vals = fill_values(g, elt, fill, len(cells), rand_val)
+    return build_of(g, form, r, c, cells, vals), cells
+
+def special_families(g0, thorough):
+    cases = []
+    seedrot = g0.below(4)
+    count = [0]
+    def termed():
+        count[0] += 1
+        return (count[0] % 2 == seedrot % 2) if thorough else (count[0] % 4 == seedrot)
+    rot = g0.below(60)
+    def keep(k, m):
+        """quick tier: one pairing in m, which one rotates with the seed (every class of every single dimension still occurs
+        in every run because each class occurs in many pairings); thorough tier: all"""
+        return thorough or ((k + rot) % m == 0)
+    # (s1) every named structure on every shape class; value class, construction form, vector classes and scale factor cycle
+    g = g0.fork("structured")
+    reps = 2 if thorough else 1
+    k = g.below(1000)
+    for rep in range(reps):
+        for pat in PATTERNS:
+            for sc in SHAPE_CLASSES:
+                k += 1
+                if not keep(k, 2): continue
+                r, c = shape_of(g, sc, 10)
+                fill = FILLS[k % len(FILLS)]; form = BUILD_FORMS[(k // 3) % len(BUILD_FORMS)]
+                b, _ = structured_matrix(g, 'rat', r, c, pat, fill, form)
+                x = vector_of(g, 'rat', VECTOR_CLASSES[(k // 5) % len(VECTOR_CLASSES)], c, rand_val)
+                y = vector_of(g, 'rat', VECTOR_CLASSES[(k // 7) % len(VECTOR_CLASSES)], r, rand_val)
+                a = SCALES['rat'][k % len(SCALES['rat'])]
+                cases.append(mk_h('rat', b, [], x, y, a, "structured-patterns", termed()))
+    # (s2) every ordered pair of vector classes (x, y), on random and structured matrices of rotating shape class
+    g = g0.fork("vectors")
+    k = g.below(1000)
+    for cx in VECTOR_CLASSES:
+        for cy in VECTOR_CLASSES:
+            k += 1
+            if not keep(k, 4): continue
+            r, c = shape_of(g, SHAPE_CLASSES[k % len(SHAPE_CLASSES)], 10)
+            if k % 3 == 0:
+                b, _ = structured_matrix(g, 'rat', r, c, PATTERNS[k % len(PATTERNS)], FILLS[(k // 2) % len(FILLS)], BUILD_FORMS[k % len(BUILD_FORMS)])
+            else:
+                cells = c06.rand_cells(g, r, c, 1, g.choice([2, 3]))
+                b = build_of(g, BUILD_FORMS[k % len(BUILD_FORMS)], r, c, cells, [c06.val(g) for _ in cells])
+            x = vector_of(g, 'rat', cx, c, rand_val); y = vector_of(g, 'rat', cy, r, rand_val)
+            cases.append(mk_h('rat', b, [], x, y, SCALES['rat'][(k // 4) % len(SCALES['rat'])], "vector-classes", termed()))
+    # (s3) every value class of the entries against every scale factor
+    g = g0.fork("fills")
+    k = g.below(1000)
+    for fill in FILLS:
+        for a in SCALES['rat']:
+            k += 1
+            if not keep(k, 2): continue
+            r, c = shape_of(g, SHAPE_CLASSES[k % len(SHAPE_CLASSES)], 10)
+            cells = c06.rand_cells(g, r, c, 1, 2) if k % 4 else pattern("full", r, c)
+            b = build_of(g, BUILD_FORMS[k % len(BUILD_FORMS)], r, c, cells, fill_values(g, 'rat', fill, len(cells), rand_val))
+            cases.append(mk_h('rat', b, [], rvec(g, c), rvec(g, r), a, "value-classes", termed()))
+    # (s4) histories: every ordered pair of operation classes on small structured matrices, then the products
+    g = g0.fork("op-pairs")
+    k = g.below(1000)
+    bases = [("empty", 2, 3), ("single-last", 3, 2), ("full", 2, 2), ("first-col-empty", 3, 3), ("last-col-empty", 2, 4),
+             ("diagonal", 3, 3), ("last-row-full", 4, 2), ("first-col-full", 3, 1), ("full", 1, 3), ("empty", 1, 1), ("checker", 4, 4)]
+    for o1 in OP_CLASSES:
+        for o2 in OP_CLASSES:
+            for rep in range(2 if thorough else 1):
+                k += 1
+                if not keep(k, 2): continue
+                pat, r, c = bases[k % len(bases)]
+                cells = pattern(pat, r, c)
+                vals = fill_values(g, 'rat', FILLS[k % len(FILLS)], len(cells), rand_val)
+                b = build_of(g, BUILD_FORMS[k % len(BUILD_FORMS)], r, c, cells, vals)
+                occ = dict(zip(cells, vals)); rr, cc = r, c
+                ops = []
+                for cls in (o1, o2):
+                    o = op_of(g, 'rat', cls, rr, cc, occ, rand_val)
+                    if o is None: continue
+                    ops.append(o); occ, rr, cc = track(occ, rr, cc, o)
+                x = vector_of(g, 'rat', VECTOR_CLASSES[k % len(VECTOR_CLASSES)] if k % 2 else "random", cc, rand_val)
+                y = vector_of(g, 'rat', VECTOR_CLASSES[(k // 3) % len(VECTOR_CLASSES)] if k % 3 == 0 else "random", rr, rand_val)
+                cases.append(mk_h('rat', b, ops, x, y, SCALES['rat'][k % len(SCALES['rat'])], "history-op-pairs", termed()))
+    # (s5) random histories of 1..8 steps on shapes <= 10 x 10, then the products
+    g = g0.fork("histories")
+    for h in range(250 if thorough else 80):
+        r, c = g.range(0, 10), g.range(0, 10)
+        if h % 9 == 0: r, c = shape_of(g, g.choice(SHAPE_CLASSES), 10)
+        cells = c06.rand_cells(g, r, c, 1, g.choice([2, 3, 5]))
+        if h % 10 == 3: cells = []
+        b = build_of(g, g.choice(BUILD_FORMS), r, c, cells, [c06.val(g) for _ in cells])
+        ops = c06.rand_ops(g, r, c, cells, g.range(1, 8))
+        rr, cc = final_shape(r, c, ops)
+        cases.append(mk_h('rat', b, ops, rvec(g, cc), rvec(g, rr), vval(g), "history-random", termed()))
+    # (s6) the float instances with their value classes (axis-aligned / unit-modulus complex entries, signed zeros,
+    #      2^+-200), structured patterns and short histories; compared with the exact products within a rounding-error bound
+    g = g0.fork("floats")
+    k = g.below(1000)
+    for h in range(200 if thorough else 80):
+        k += 1
+        elt = 'f64' if h % 2 == 0 else 'cplx'
+        r, c = shape_of(g, SHAPE_CLASSES[k % len(SHAPE_CLASSES)], 10)
+        fill = FILLS[(k // 2) % len(FILLS)]
+        if h % 3 == 0:
+            b, cells = structured_matrix(g, elt, r, c, PATTERNS[(k // 2) % len(PATTERNS)], fill, BUILD_FORMS[k % len(BUILD_FORMS)])
+        else:
+            cells = c06.rand_cells(g, r, c, 1, 2)
+            b = build_of(g, BUILD_FORMS[k % len(BUILD_FORMS)], r, c, cells, fill_values(g, elt, fill, len(cells), rand_val))
+        ops = []
+        if h % 4 == 1:
+            occ = dict(zip(cells, b[3] if b[0] == 'V' else [t[2] for t in b[3]])); rr, cc = r, c
+            for cls in (g.choice(OP_CLASSES), g.choice(OP_CLASSES)):
+                o = op_of(g, elt, cls, rr, cc, {p: 0 for p in occ}, rand_val)
+                if o is None or (o[0] == 'insert' and cls == "overwrite-same"): continue
+                ops.append(o); occ, rr, cc = track({p: 0 for p in occ}, rr, cc, o) if o[0] != 'scale' else (occ, rr, cc)
+        rr, cc = final_shape(r, c, ops)
+        x = vector_of(g, elt, VECTOR_CLASSES[(k // 3) % len(VECTOR_CLASSES)], cc, rand_val)
+        y = vector_of(g, elt, VECTOR_CLASSES[(k // 5) % len(VECTOR_CLASSES)], rr, rand_val)
+        cases.append(mk_h(elt, b, ops, x, y, SCALES[elt][k % len(SCALES[elt])], "structured-" + elt, termed()))
     return cases
 
 def case_from_json(j):
     elt = j["elt"]; m = j["meta"]
     b = build_from_json(elt, m["build"])
     cv = (lambda s: Fraction(s)) if elt == 'rat' else (lambda s: complex(s) if elt == 'cplx' else float(s))
+    if m.get("kind") == "hprod":
+        return mk_h(elt, b, ops_from_json(elt, m["ops"]), [cv(t) for t in m["x"]], [cv(t) for t in m["y"]], cv(m["a"]), "corpus")
     return mk(elt, b, [cv(t) for t in m["x"]], [cv(t) for t in m["y"]], cv(m["a"]), "corpus")
 
 COUNT = {"oracle_in_claim": 0, "tie_only": 0}
@@ -137,12 +296,20 @@ def extra_coverage():
     return {"oracle_cases_inside_the_claim": COUNT["oracle_in_claim"], "tie_only_cases": COUNT["tie_only"]}
 
 def oracle(case, items):
-    if case.elt != 'rat':
-        COUNT["tie_only"] += 1
-        return None
+    elt = case.elt
     m = case.meta
-    b = build_from_json('rat', m["build"])
+    b = build_from_json(elt, m["build"])
+    cv = (lambda s: Fraction(s)) if elt == 'rat' else (lambda s: complex(s) if elt == 'cplx' else float(s))
+    x, y, a = [cv(t) for t in m["x"]], [cv(t) for t in m["y"]], cv(m["a"])
     ref = dok_of_build(b)
-    if ref is None or len(m["x"]) != ref.c or len(m["y"]) != ref.r: COUNT["tie_only"] += 1
+    if m.get("kind") == "hprod":
+        ops = ops_from_json(elt, m["ops"])
+        if ref is None: COUNT["tie_only"] += 1
+        else: COUNT["oracle_in_claim"] += 1
+        return oracle_hprod(elt, b, ops, x, y, a, items)
+    if ref is None or len(x) != ref.c or len(y) != ref.r: COUNT["tie_only"] += 1
     else: COUNT["oracle_in_claim"] += 1
-    return oracle_prod(b, [Fraction(t) for t in m["x"]], [Fraction(t) for t in m["y"]], Fraction(m["a"]), items)
+    if elt != 'rat':
+        # the float instances: exact products of the (exactly known) float inputs, within a rounding-error bound
+        return oracle_prod_e(elt, b, x, y, a, items)
+    return oracle_prod(b, x, y, a, items)
